@@ -8,13 +8,35 @@ import struct
 
 
 class MemSpec:
-    def __init__(self, mem_type, size, data=None, addr8=b'\0' * 8, fill=0):
+    def __init__(self, mem_type, size, data=None, addr8=b'\0' * 8, fill=0, sparse=False):
+        """sparse=True: `size` may be huge (up to 2**32-1); bytes live in a dict, untouched bytes read as content(addr)."""
         self.type = mem_type
         self.size = size
-        self.data = bytearray(data if data is not None else bytes([fill]) * size)
-        if len(self.data) < size:
-            self.data += bytes([fill]) * (size - len(self.data))
+        self.sparse = sparse
+        if sparse:
+            self.data = bytearray()
+            self.cells = {}
+        else:
+            self.data = bytearray(data if data is not None else bytes([fill]) * size)
+            if len(self.data) < size:
+                self.data += bytes([fill]) * (size - len(self.data))
         self.addr8 = bytes(addr8)
+
+    @staticmethod
+    def content(a):
+        return (a * 7 + (a >> 8) * 13 + 3) & 0xff
+
+    def peek(self, addr, ln):
+        if not self.sparse:
+            return bytes(self.data[addr:addr + ln])
+        return bytes(self.cells.get(a, self.content(a)) for a in range(addr, addr + ln))
+
+    def poke(self, addr, body):
+        if not self.sparse:
+            self.data[addr:addr + len(body)] = body
+        else:
+            for k, b in enumerate(body):
+                self.cells[addr + k] = b
 
 
 class MemDevice:
@@ -23,7 +45,6 @@ class MemDevice:
     def __init__(self, mems):
         self.mems = list(mems)  # index == id
         self.transcript = []
-        self.sparse = {}
 
     def handle(self, port, channel, data):
         """returns list of (port, channel, bytes) replies"""
@@ -59,21 +80,10 @@ class MemDevice:
         return []
 
     def _get(self, m, addr, ln):
-        if len(m.data) >= addr + ln:
-            return m.data[addr:addr + ln]
-        # large sparse memories: only materialise what has been touched
-        out = bytearray()
-        for a in range(addr, addr + ln):
-            out.append(m.data[a] if a < len(m.data) else self.sparse.get((id(m), a), 0))
-        return out
+        return m.peek(addr, ln)
 
     def _set(self, m, addr, body):
-        for k, b in enumerate(body):
-            a = addr + k
-            if a < len(m.data):
-                m.data[a] = b
-            else:
-                self.sparse[(id(m), a)] = b
+        m.poke(addr, body)
 
 
 class PumpCf:
